@@ -1482,4 +1482,16 @@ example : firsts 3 (hsClient.run (okPre ++ [(.dgram, .hs .ok :: List.replicate 3
     (hsClient.run (okPre ++ [(.dgram, .hs .ok :: List.replicate 3 (Orc.snd .ok)), (.appDisconnect .tls, [])])).2.any Out.isFail = true := by
   decide
 
+/-- An ICMP error reported to a session with nothing in flight and no lg_crcv entry (coap_session_disconnected_lkd with
+COAP_NACK_ICMP_ISSUE while requests wait behind the handshake, no block mode): exactly ONE notification that names NO message;
+the delay queue, the state and everything else are untouched — a queued Confirmable is not reported by it, however often it
+happens (the lg_crcv case is `icmp_notification_is_extra`).  Tied by the harness' `icmp` segments (round R19b). -/
+theorem icmp_report_names_nothing_queued (c : Ctx) (hi : c.s.inflight = []) (hl : c.s.lgCrcv = []) :
+    (c.disconnected .icmp).out = c.out ++ [.nack .icmp none none] ∧ (c.disconnected .icmp).s = c.s := by
+  simp [Ctx.disconnected, Ctx.discOuts, Ctx.discFirst, Ctx.discDq, Ctx.discLg, hi, hl]
+
+/-- … on `okPre`'s session (NON, CON, CON queued, handshake pending), twice: two anonymous notifications, queue unchanged -/
+example : ((hsClient.run okPre).1.run [(.appDisconnect .icmp, []), (.appDisconnect .icmp, [])]) =
+    ((hsClient.run okPre).1, [.nack .icmp none none, .nack .icmp none none]) := by decide
+
 end Coap.C19
